@@ -543,12 +543,39 @@ func runTotality(c *ctx, prop string) {
 			one(prog, nestDoc, "nested-arrays")
 		}
 	}
+	// strings of unusual content (control characters, astral and combining characters, long runs, pictures and patterns with
+	// foreign characters in every position) in every string position of every string-taking built-in, as literals and
+	// from the input; and as the result itself (EvalBytes must encode what Eval returns)
+	strFns := []string{"$string(%s)", "$length(%s)", "$substring(%s, 1)", "$substring(%s, -2, 1)", "$substringBefore(%s, %s)", "$substringAfter(%s, %s)", "$uppercase(%s)", "$lowercase(%s)",
+		"$pad(%s, 20, %s)", "$pad(%s, -5)", "$trim(%s)", "$contains(%s, %s)", "$split(%s, %s)", "$split(%s, \"\")", "$join([%s, %s], %s)", "$replace(%s, %s, %s)", "$match(%s, /./)", "$number(%s)",
+		"$formatNumber(1234.5, %s)", "$formatNumber(-0.5, %s, {\"decimal-separator\": %s})", "$formatNumber(12, \"#0\", {\"zero-digit\": %s})", "$formatBase(255, 16) & %s", "$base64encode(%s)", "$base64decode(%s)",
+		"$base64decode($base64encode(%s))", "$encodeUrl(%s)", "$encodeUrlComponent(%s)", "$decodeUrl(%s)", "$decodeUrlComponent(%s)", "$decodeUrlComponent($encodeUrlComponent(%s))",
+		"$fromMillis(0, %s)", "$fromMillis(1500000000000, %s, \"+0530\")", "$fromMillis(0, \"[H01]\", %s)", "$toMillis(%s)", "$toMillis(%s, %s)", "$toMillis(\"2018\", %s)", "$now(%s)", "$now(\"[Y]\", %s)",
+		"$lookup({\"k\": 1}, %s)", "{%s: 1}", "$keys({%s: 1})", "$error(%s)", "$sort([%s, %s, \"b\"])", "[%s, %s]^($)", "$distinct([%s, %s])", "%s = %s", "%s < %s", "%s & %s", "%s in [%s]", "$type(%s)",
+		"%s", "[%s]", "{\"k\": %s}", "$boolean(%s)", "$exists(%s)", "$reverse([%s, %s])", "$each({\"k\": %s}, function($v, $k){$v & $k})", "$eval(%s)", "$spread({%s: %s})", "$merge([{%s: 1}, {%s: 2}])"}
+	for i := 0; i < c.scale(4000, 60000) && !c.tooMany() && timeouts < 3; i++ {
+		tmpl := strFns[r.intn(len(strFns))]
+		d := map[string]interface{}{"x": exoticString(r), "y": exoticString(r), "n": 3.0}
+		prog := tmpl
+		for strings.Contains(prog, "%s") {
+			arg := []string{"x", "y"}[r.intn(2)]
+			if r.chance(1, 3) {
+				arg = strLit(exoticString(r))
+			}
+			prog = strings.Replace(prog, "%s", arg, 1)
+		}
+		one(prog, d, "exotic-strings")
+	}
 	n := c.scale(12000, 250000)
 	for i := 0; i < n && !c.tooMany() && timeouts < 3; i++ {
 		g.chaotic = r.chance(1, 2)
 		g.vars = nil
+		g.exotic = i%3 == 0
 		prog := g.expr(2 + r.intn(3))
 		d := fullDoc(r, r.chance(1, 3))
+		if i%3 == 1 {
+			d = fullDocExotic(r, r.chance(1, 3))
+		}
 		if r.chance(1, 10) {
 			d = []interface{}{nil, []interface{}{}, map[string]interface{}{}, []interface{}{[]interface{}{[]interface{}{}}}}[r.intn(4)]
 		}
